@@ -22,6 +22,8 @@ ID = 'C08'
 IMPORTS = ['Engine.Resolve', 'Engine.RunResolve']
 THEOREMS = [
     'C08_lookup_spec',
+    'C08_assert_fact_get',
+    'C08_fact_answers_in_order',
     'C08_unknown_predicate_fails',
     'C08_exact_over_variadic',
     'C08_variadic_only_without_exact',
